@@ -7,25 +7,25 @@ for h in hs:
     if h.get('disabled'): continue
     byprop.setdefault(h['property'],[]).append(h)
 notes={
- 'C01':"kernel lemmas only so far (intersectLine, selectors) plus, when the overlay model is enabled, the set operations on tiny operand classes; the full pipeline on larger operands is outside",
- 'C02':"matrix layer for all matrices/patterns; empty-operand closed form; Relate on two non-empty operands only on tiny classes",
- 'C03':"non-finite ordinates for all bit patterns; IsSimple/ring validity against definitional oracles on 3-4 lattice points",
+ 'C01':"the four set operations on two symbolic lattice Points through the real overlay (Point x Line in the thorough tier); on 15 concrete operand pairs (holes, nesting, shared edges, overlapping collection members, mixed dimensions) the six operations run from the real SSA and membership of EVERY real location in the result is decided against the Boolean combination of exact membership oracles, plus validity and the area laws; symbolic areal/lineal operands are outside",
+ 'C02':"matrix layer for all matrices/patterns; empty-operand closed form; Relate through the real overlay on symbolic Point/Point (Point/Line thorough) and the mod-2 rule on three lines in all member orders; on 21 concrete operand pairs incl. areal ones every cell is F exactly when no real location lies in both parts (universal/existential solver queries), type-determined digits, seven predicates equal their patterns",
+ 'C03':"non-finite ordinates for all bit patterns; IsSimple/ring validity against definitional oracles on 3-4 symbolic lattice points and on closed 5-segment curves with a symbolic start vertex; Polygon.Validate with one and with two holes (translated triangular hole, all arrangements without proper crossings); MultiPolygon with an empty member at any position",
  'C04':"all 64-bit ordinate patterns on small shapes",
- 'C05':"structure through the real lexer/parser; numerals are opaque tokens",
- 'C06':"marshal side of the six non-collection types; decoder not encodable (encoding/json)",
+ 'C05':"structure through the real lexer/parser with numerals as opaque tokens; numerals themselves as 1..4 (thorough 5) symbolic bytes over {0,1,7,.,e,E,+,-} through text/scanner and the parser, strconv on each remaining concrete spelling",
+ 'C06':"six hand-rolled marshalers against an RFC 7946 printer; UnmarshalGeoJSON(MarshalJSON(g)) incl. collections with empty members; the decoder on grammar-built documents (position lengths 0..5); encoding/json itself is a model",
  'C07':"integer layer for all int64; structural round trip with uninterpreted scaling; exact at precision 0",
  'C08':"arbitrary short buffers and fully symbolic count fields",
- 'C09':"Intersects against exact oracles on small lattice operand classes; Distance flags only",
- 'C10':"write-freedom (frozen operands) and aliasing; no real scheduling",
- 'C11':"all order types of lattice boxes up to 5-6 records",
+ 'C09':"Intersects against exact oracles on small symbolic lattice operand classes; on 51 concrete pairs of every type combination Intersects is true exactly when some real location lies in both (existential/universal queries) and agrees with Disjoint, Intersection and Distance==0; Distance of two segments is the least of the four end-point kernel values for every (uninterpreted) kernel; the kernel's numeric value is outside",
+ 'C10':"write-freedom (frozen operands) and aliasing; bit-identical results when one range over a map or all of them iterate rotated/reversed (symbolic Points; eight concrete operand pairs x six operations), schedule counterexamples confirmed by native repetition; goroutine interleavings are outside",
+ 'C11':"all order types of lattice boxes up to 5-6 records; Stop/error propagation on trees of three and four levels with a symbolic query box and stop position; PrioritySearch order",
  'C12':"lattice envelopes",
- 'C13':"hull of 3 (quick) / 4 (thorough) lattice points",
- 'C14':"Area exact on lattice triangles/quadrilaterals; Length/Centroid only qualitative",
- 'C15':"boundary rules on small lattice shapes; PointOnSurface membership for points/lines",
+ 'C13':"hull contract on 3 (quick) / 4 (thorough) symbolic lattice points and MultiPoints with empty members; on 102 concrete geometries every real location of g lies in the hull, hull vertices are vertices of g, strictly convex, idempotent",
+ 'C14':"Area exact on lattice triangles/quadrilaterals with holes; collection measures; Polygon.Centroid combines ring centroids with the right signed weights for both ring orientations and every hole position (library kernels compared term against term); numeric values of Length/Centroid outside",
+ 'C15':"boundary rules on small symbolic lattice shapes; on 102 concrete geometries Boundary(g) equals the OGC boundary as a point set (every real location) and PointOnSurface lies strictly inside an areal part / on a line; nested collections with empties",
  'C16':"all bit patterns, symbolic coordinate types",
- 'C17':"structural contracts; distance claims outside",
+ 'C17':"structural contracts; SnapToGrid finiteness and InterpolatePoint for every (non-NaN) float64 on concrete lines in precise FP; Polygon/MultiPolygon.Simplify equal the ring-wise simplification for every threshold; geometric distance claims outside",
  'C18':"all finite floats for points/lines/multipoints; lattice rings",
- 'C20':"13 kinds of empty x operations",
+ 'C20':"13 kinds of empty x operations; measures, Relate/predicates and set-operation point sets unchanged by an empty member at any position or nesting",
 }
 checks=[]
 for p in props:
